@@ -109,6 +109,7 @@ class IndexableArray(RaggedBase):
                     self._set_data_range(index, value.ravel())
 
     def _get_row(self, index):
+        self.ravel()
         view = self._shape.view(index)
         return slice(int(view.starts), int(view.ends)), None
 
